@@ -16,6 +16,7 @@ package main
 import (
 	"bytes"
 	"encoding/json"
+	"errors"
 	"fmt"
 	"io"
 	"sort"
@@ -36,12 +37,12 @@ func runC13(r *hk.Run) {
 	r.CaseType = "c13_case"
 	r.CheckFn = "c13_check"
 	r.ShardSize = 50
-	r.Rule = "line cases: streams of lines whose lengths straddle the bufio size (n-2..n+2, CR at the edge, bare LF, no final newline) x buffer sizes {16,17,32,64,4096} x readLine variant; non-trivial = some line is longer than the buffer or the stream does not end in a newline. Exchange pairs (dump off / dump on): protocol x option subsets x writer routing x sync/async x level x exchange shape (body framing and size, long / many headers, small read buffers, gzip, charset, 1xx, redirects, retries, truncated bodies); non-trivial = at least one part is on and the exchange has a body or a header line longer than the read buffer or more than one round trip. Distinct by canonical input."
+	r.Rule = "line cases: streams of lines whose lengths straddle the bufio size (n-2..n+2, CR at the edge, bare LF, no final newline) x buffer sizes {16,17,32,64,4096} x readLine variant; non-trivial = some line is longer than the buffer or the stream does not end in a newline. Exchange pairs (dump off / dump on): protocol x option subsets x writer routing x sync/async x healthy / failing dump writers x level x exchange shape (body framing and size, long / many headers, small read buffers, gzip, charset, 1xx, redirects, retries, truncated bodies); non-trivial = at least one part is on and the exchange has a body or a header line longer than the read buffer or more than one round trip. Distinct by canonical input."
 	rng := hk.NewRand(r.Seed)
-	lineCases(r, rng, r.Scale(350, 12000))
-	h1Pairs(r, rng, r.Scale(300, 6000))
-	h2Pairs(r, rng, r.Scale(130, 2500))
-	h3Pairs(r, rng, r.Scale(100, 1500))
+	lineCases(r, rng, r.Scale(350, 6000))
+	h1Pairs(r, rng, r.Scale(300, 3000))
+	h2Pairs(r, rng, r.Scale(130, 1200))
+	h3Pairs(r, rng, r.Scale(100, 800))
 }
 
 // ---------- (a) line cases ----------
@@ -237,13 +238,19 @@ func newSink() *sink { return &sink{data: map[[2]int][]byte{}} }
 type tagW struct {
 	s     *sink
 	d, id int
+	fail  bool // a broken writer: records what it is offered, then reports (0, error)
 }
+
+var errDumpWriter = errors.New("c13: dump writer failed")
 
 func (t *tagW) Write(p []byte) (int, error) {
 	t.s.mu.Lock()
 	k := [2]int{t.d, t.id}
 	t.s.data[k] = append(t.s.data[k], p...)
 	t.s.mu.Unlock()
+	if t.fail {
+		return 0, errDumpWriter
+	}
 	return len(p), nil
 }
 
@@ -262,6 +269,7 @@ type optSpec struct {
 	Set   [7]bool `json:"set"`
 	On    [4]bool `json:"on"` // ReqHeader, ReqBody, RespHeader, RespBody
 	Async bool    `json:"async"`
+	Fail  bool    `json:"failing_writers,omitempty"` // every writer of this dumper reports an error
 }
 
 func writerID(level, slot int) int { return 10 + 10*level + slot }
@@ -273,7 +281,7 @@ func (o optSpec) build(level int, s *sink) *req.DumpOptions {
 		if !o.Set[slot] {
 			return nil
 		}
-		return &tagW{s: s, d: level, id: writerID(level, slot)}
+		return &tagW{s: s, d: level, id: writerID(level, slot), fail: o.Fail}
 	}
 	d := &req.DumpOptions{RequestHeader: o.On[0], RequestBody: o.On[1], ResponseHeader: o.On[2], ResponseBody: o.On[3], Async: o.Async}
 	// assign only non-nil (a typed nil *tagW in an io.Writer would not be == nil)
@@ -368,6 +376,10 @@ func genOpt(rng *hk.Rand, level int, r *hk.Run) optSpec {
 		o.Set[slotOut] = false // Request.SetDumpOptions: nil Output -> the request's dump buffer
 	}
 	o.Async = rng.Chance(35)
+	o.Fail = rng.Chance(15)
+	if o.Fail {
+		r.Count("failing-dump-writers")
+	}
 	return o
 }
 
@@ -420,6 +432,9 @@ func (c dumpCfg) shape() string {
 		}
 		if o.Async {
 			s += "a"
+		}
+		if o.Fail {
+			s += "f"
 		}
 	}
 	return s
